@@ -1082,6 +1082,16 @@ func (ev *Evaluator) goCall(fn *ssa.Function, args []SVal) SVal {
 
 func (fr *Frame) lookupName(name string, st *State, li *loopInfo) (SVal, bool) {
 	fx := fr.fx
+	if i := strings.Index(name, "#"); i > 0 {
+		// name#Type: among the variables called name, the one of Go type Type
+		fr.nameTypeFilter = name[i+1:]
+		defer func() { fr.nameTypeFilter = "" }()
+		name = name[:i]
+		if v := fr.resolveDebugName(name, li); v != nil {
+			return fr.nameVal(v, false, st), true
+		}
+		return SVal{}, false
+	}
 	if strings.HasPrefix(name, "&") {
 		// &x: the cell of a local variable that lives in memory (its address is taken or it is accessed by field)
 		if v, ok := fr.addrNames[name[1:]]; ok {
@@ -1161,6 +1171,19 @@ func (fr *Frame) lookupName(name string, st *State, li *loopInfo) (SVal, bool) {
 	return SVal{}, false
 }
 
+func (fr *Frame) typeFilterOK(t types.Type) bool {
+	if fr.nameTypeFilter == "" {
+		return true
+	}
+	ts := types.TypeString(t, func(p *types.Package) string {
+		if fr.fn.Pkg != nil && p == fr.fn.Pkg.Pkg {
+			return ""
+		}
+		return p.Name()
+	})
+	return ts == fr.nameTypeFilter
+}
+
 // resolveDebugName: the SSA value a source-level variable name denotes at a loop head (or at function level):
 // among all values the debug information associates with the name, the one defined deepest in the dominator
 // tree that still dominates the program point. (Declarations may carry a zero constant; uses carry the value.)
@@ -1207,7 +1230,7 @@ func (fr *Frame) resolveDebugName(name string, li *loopInfo) ssa.Value {
 				if !ok {
 					break
 				}
-				if phi.Comment == name {
+				if phi.Comment == name && fr.typeFilterOK(phi.Type()) {
 					if _, bound := fr.env[phi]; bound {
 						if d := depth(b) * 100000; d > bestDepth {
 							best, bestDepth = phi, d
@@ -1222,7 +1245,7 @@ func (fr *Frame) resolveDebugName(name string, li *loopInfo) ssa.Value {
 	for _, dr := range fr.debugRefs2[name] {
 		v := dr.X
 		db := dr.Block()
-		if !dominatesPoint(db) {
+		if !dominatesPoint(db) || !fr.typeFilterOK(v.Type()) {
 			continue
 		}
 		if isConstLike(v) {
@@ -1244,6 +1267,9 @@ func (fr *Frame) resolveDebugName(name string, li *loopInfo) ssa.Value {
 	// the same variable refer to, provided it is defined before the program point
 	for _, dr := range fr.debugRefs2[name] {
 		if declObj != nil && dr.Object() != declObj {
+			continue
+		}
+		if !fr.typeFilterOK(dr.X.Type()) {
 			continue
 		}
 		ins, ok := dr.X.(ssa.Instruction)
